@@ -510,6 +510,12 @@ func run(c *Ctx) {
 		one(c, []byte(src), false, &s)
 	}
 	c.Dist["delicate-literal-and-operator-programs"] = len(dl)
+	// the shapes of an else block (common.ElseBlockPrograms; shared with C03): `else if` only for a block that IS one if
+	eb := ElseBlockPrograms(c.Thorough())
+	for _, src := range eb {
+		one(c, []byte(src), true, &s)
+	}
+	c.Dist["else-block-shape-programs"] = len(eb)
 	// deep chains: the formatter adds parentheses the source did not have (!!y prints as !(!y), a[0].f[0] as (a[0]).f[0]), so a
 	// nesting that the parser accepts in the source must also be accepted in the formatted text
 	ndeep := 0
